@@ -203,6 +203,24 @@ Proof.
   destruct (next_chc_some _ _ _ E) as [l0 [l1 [Hl Hp]]]. exists l0, x, l1. repeat split; assumption.
 Qed.
 
+Lemma stale_prefix_some r : forall rp, stale_prefix r = Some rp ->
+  exists r1 x r', r = r1 ++ rp /\ rp = x :: r' /\ ch_dflt x = false.
+Proof.
+  induction r as [|y r IH]; intros rp H; cbn [stale_prefix] in H; [discriminate|].
+  destruct (ch_dflt y) eqn:Ey.
+  - destruct (IH rp H) as [r1 [x [r' [E1 [E2 E3]]]]]. exists (y :: r1), x, r'. subst r. repeat split; assumption.
+  - inversion H; subst rp. exists [], y, r. repeat split. exact Ey.
+Qed.
+
+(* the reversed prefix found by stale_prefix, in chain order: chain = l0 ++ x :: l1 with x the non-default case *)
+Lemma stale_prefix_chain l rp : stale_prefix (rev l) = Some rp ->
+  exists l0 x l1, l = l0 ++ x :: l1 /\ rev rp = l0 ++ [x] /\ ch_dflt x = false.
+Proof.
+  intro H. destruct (stale_prefix_some _ _ H) as [r1 [x [r' [E1 [E2 E3]]]]].
+  exists (rev r'), x, (rev r1). subst rp. split; [|split; [reflexivity|exact E3]].
+  rewrite <- (rev_involutive l), E1, rev_app_distr. cbn [rev]. rewrite <- app_assoc. reflexivity.
+Qed.
+
 Lemma norm_no_leftover sch p g n :
   norm_level sch p g = true -> In n g -> d_dflt n = true -> case_leftover sch g n = false.
 Proof.
@@ -214,21 +232,20 @@ Proof.
   pose proof (Hs _ Hsin) as Hn.
   assert (Hdo : is_dflt_of (d_sid n) n = true) by (unfold is_dflt_of; rewrite N.eqb_refl, Hd; reflexivity).
   destruct (norm_snode_dflt_active sch g (d_sid n) n Hn Hin Hdo) as [Ha _].
-  unfold case_leftover. destruct (rev (chainf sch (d_sid n))) as [|x r] eqn:Er; [reflexivity|].
-  destruct (ch_dflt x) eqn:Edf; [reflexivity|].
-  assert (Ec : chainf sch (d_sid n) = rev r ++ [x]).
-  { rewrite <- (rev_involutive (chainf sch (d_sid n))), Er. reflexivity. }
+  unfold case_leftover. destruct (stale_prefix (rev (chainf sch (d_sid n)))) as [rp|] eqn:Er; [|reflexivity].
+  destruct (stale_prefix_chain _ _ Er) as [l0 [x [l1 [Ec [Erp Edf]]]]].
   unfold active in Ha. rewrite Ec, active_from_app in Ha. apply andb_true_iff in Ha. destruct Ha as [_ Ha].
-  cbn [active_from app] in Ha. rewrite Edf in Ha. cbn [andb] in Ha. rewrite orb_false_r, andb_true_r in Ha.
+  cbn [active_from app] in Ha. rewrite Edf in Ha. cbn [andb] in Ha. rewrite orb_false_r in Ha.
+  apply andb_true_iff in Ha. destruct Ha as [Ha _].
   apply existsb_exists in Ha. destruct Ha as [m [Hmin Hm]]. apply andb_true_iff in Hm. destruct Hm as [Hex Hic].
-  destruct (in_case_chain _ _ _ _ _ Hic) as [l0 [x' [l1 [Hl [Hp [Hc Hk]]]]]].
+  destruct (in_case_chain _ _ _ _ _ Hic) as [la [x' [lb [Hl [Hp [Hc Hk]]]]]].
   apply negb_false_iff. apply existsb_exists. exists m. split; [exact Hmin|].
   apply andb_true_iff. split; [|exact Hex].
-  rewrite Ec, Hl. rewrite map_app. cbn [map].
+  rewrite Erp, Hl. rewrite map_app. cbn [map].
   assert (Ecc : cc_of x = cc_of x') by (unfold cc_of; congruence).
   rewrite <- Hp, Ecc.
-  replace (map cc_of l0 ++ [cc_of x']) with (map cc_of (l0 ++ [x'])) by (rewrite map_app; reflexivity).
-  replace (l0 ++ x' :: l1) with ((l0 ++ [x']) ++ l1) by (rewrite <- app_assoc; reflexivity).
+  replace (map cc_of la ++ [cc_of x']) with (map cc_of (la ++ [x'])) by (rewrite map_app; reflexivity).
+  replace (la ++ x' :: lb) with ((la ++ [x']) ++ lb) by (rewrite <- app_assoc; reflexivity).
   apply chain_pre_app.
 Qed.
 
@@ -2592,7 +2609,7 @@ Definition w_cb := mk_chc 0 1 false false.       (* choice 0, case b *)
 Definition w_cn1 := mk_chc 1 0 true false.       (* choice 1 (nested in case a), its default case n1 *)
 Definition w_new : list (bytes * bytes) := [([], [])].
 
-(* dflt-nested-case-leftover:
+(* former finding dflt-nested-case-leftover (fixed by 357db45), kept as regression case:
      choice ch { case a { leaf e; leaf d { default 1 } choice n { default n1; case n1 { leaf y { default 2 } } } }
                  case b { leaf z } }   leaf w
    sids: e 0, d 1, y 2, z 3, w 4. *)
@@ -2615,22 +2632,24 @@ Lemma w1_f4 : normalb w1_sch w1_valid = true. Proof. vm_compute. reflexivity. Qe
 Lemma w1_f5 : canonb w1_sch None w1_freed = true. Proof. vm_compute. reflexivity. Qed.
 Lemma w1_f6 : np_flagsb w1_sch w1_freed = true. Proof. vm_compute. reflexivity. Qed.
 Lemma w1_f7 : flag_soundb w1_sch w1_freed = true. Proof. vm_compute. reflexivity. Qed.
-Lemma w1_f8 : validate_all w1_sch w1_freed = Ok (w1_freed, w1_d). Proof. vm_compute. reflexivity. Qed.
-Lemma w1_f8b : is_nil w1_d = false. Proof. vm_compute. reflexivity. Qed.
-Lemma w1_f9 : normalb w1_sch w1_freed = false. Proof. vm_compute. reflexivity. Qed.
-Lemma w1_f10 : strip w1_freed = [DN 4 [119] false [] []]. Proof. vm_compute. reflexivity. Qed.
+Definition w1_after : forest := [DN 4 [119] false [] []].
+Lemma w1_f8 : validate_all w1_sch w1_freed = Ok (w1_after, w1_d). Proof. vm_compute. reflexivity. Qed.
+Lemma w1_f9 : normalb w1_sch w1_after = true. Proof. vm_compute. reflexivity. Qed.
+Lemma w1_f10 : strip w1_freed = w1_after. Proof. vm_compute. reflexivity. Qed.
+Lemma w1_f11 : validate_all w1_sch w1_after = Ok (w1_after, []). Proof. vm_compute. reflexivity. Qed.
 
+(* regression case of the former finding dflt-nested-case-leftover (fixed by 357db45): after e is freed validation removes
+   the left-over defaults d and y, the result is the normal form of the explicit content w and a fixpoint *)
 Lemma w1_facts :
   schema_okb w1_sch = true /\ chc_okb w1_sch = true /\
   (exists d, validate_all w1_sch w1_parsed = Ok (w1_valid, d)) /\ normalb w1_sch w1_valid = true /\
   canonb w1_sch None w1_freed = true /\ np_flagsb w1_sch w1_freed = true /\ flag_soundb w1_sch w1_freed = true /\
-  (exists d, validate_all w1_sch w1_freed = Ok (w1_freed, d) /\ d <> []) /\
-  normalb w1_sch w1_freed = false /\ strip w1_freed = [DN 4 [119] false [] []].
+  (exists d, validate_all w1_sch w1_freed = Ok (w1_after, d)) /\
+  normalb w1_sch w1_after = true /\ strip w1_freed = w1_after /\ validate_all w1_sch w1_after = Ok (w1_after, []).
 Proof.
   split; [exact w1_f1|]. split; [exact w1_f2|]. split; [exists w1_d0; exact w1_f3|]. split; [exact w1_f4|].
   split; [exact w1_f5|]. split; [exact w1_f6|]. split; [exact w1_f7|].
-  split; [exists w1_d; split; [exact w1_f8|intro E; pose proof w1_f8b as H; rewrite E in H; discriminate]|].
-  split; [exact w1_f9|exact w1_f10].
+  split; [exists w1_d; exact w1_f8|]. split; [exact w1_f9|]. split; [exact w1_f10|exact w1_f11].
 Qed.
 
 (* dflt-leaflist-partial: leaf-list ll { default x; default y }  leaf z;  sids ll 0, z 1 *)
